@@ -536,3 +536,104 @@ def replay_render(r):
 CHECKS['C17'] = c17
 REPLAYERS['render'] = replay_render
 REPLAYERS['render-arm'] = lambda r: (1 if [f for f in __import__('rtc.prop_c17', fromlist=['x']).arm_coverage()['failures'] if f['clause'] == r['detail']['clause']] else 0)
+
+
+# ------------------------------------------------------------------ source front end (C07, C08, C10)
+def src_pass(pool, tier, seed):
+    from rtc import prop_src
+    os.makedirs(CACHE_DIR, exist_ok=True)
+    path = os.path.join(CACHE_DIR, 'srcpass-%s-%s-%d.json' % (tree_hash(), tier, seed))
+    if os.path.exists(path):
+        with open(path) as fh:
+            d = json.load(fh)
+        d['cached'] = True
+        return d
+    t0 = time.time()
+    d = prop_src.run(pool, tier, seed)
+    d['wall'] = round(time.time() - t0, 1)
+    d['cached'] = False
+    with open(path, 'w') as fh:
+        json.dump(d, fh)
+    return d
+
+
+def witness_fails(prop, src):
+    from rtc import prop_src, progs
+    fn = progs.compile_fn(src)
+    ref = progs.behaviours(fn, max_len=4, max_runs=120)
+    if prop == 'C08':
+        r = prop_src.check_c08(src, ref)
+    else:
+        r = prop_src.check_c07_c10(src, ref)[prop]
+    return r if r[0] == 'fail' else (('fail', {'kind': 'skipped-because-C07-fails'}) if (prop == 'C10' and r[0] == 'skipped') else None)
+
+
+def src_property(explanation, extra_assumptions=()):
+    def run(prop, pool, verdict, tier, seed):
+        from vcheck import load_known
+        e1 = run_e1(prop, pool, verdict, tier, seed)
+        fz = run_fuzz(prop, pool, verdict, tier, seed)
+        d = src_pass(pool, tier, seed)
+        mine = [f for f in d['fails'] if f['prop'] == prop]
+        by = {}
+        for f in mine:
+            by.setdefault(f['kind'], []).append(f)
+        for k, fs in sorted(by.items()):
+            f = min(fs, key=lambda x: len(x['source']))
+            rp = write_replay(prop, 'program-' + k, {'kind': 'program', 'property': prop, 'source': f['source'], 'check': k, 'detail': f['detail'],
+                                                     'failing_inputs_in_scope': len(fs)})
+            verdict.violation(rp)
+        known = []
+        for f in load_known().get('findings', []):
+            if f['property'] == prop and f.get('kind') == 'program-region':
+                try:
+                    r = witness_fails(prop, f['witness']['source'])
+                except Exception as e:
+                    r = ('fail', {'kind': 'witness raised %r' % (e,)})
+                if r:
+                    verdict.known.append('%s %s [region: %s] witness still fails: %s' % (f['id'], f['what'], f['region'], r[1].get('kind')))
+                    known.append(f['id'] + ' still fails')
+                else:
+                    known.append(f['id'] + ' witness no longer fails')
+        c = d['counts']
+        cov = coverage_from(e1, fz, explanation)
+        cov['evaluations'] = d['paths'] + fz['evaluations']
+        cov['programs'] = d['programs']
+        cov['distinct_nontrivial'] = d['nontrivial']
+        cov['rule'] = ('%d programs: %d hand-written ones (one per construct x test-expression class named by the properties) and seeded random structured programs over '
+                       'assign / augmented assign / expression statement / return / pass / if-elif-else / while-else / for-else / break / continue, depth <= %d, '
+                       'with tests and operands drawn from calls, attributes, subscripts, not, constants, comparisons (incl. chained), arithmetic, and/or; every test, iterator and '
+                       'operand is an oracle access that logs itself and returns the next scripted decision; ALL decision paths are enumerated by extending the script on demand '
+                       '(alphabet {0,1,2}, length <= %d): %d paths; non-trivial = has a compound statement. Outcome counts for %s: %s'
+                       % (d['programs'], 28, 2 if tier == 'quick' else 3, 4 if tier == 'quick' else 6, d['paths'], prop,
+                          {k.split(':')[1]: v for k, v in sorted(c.items()) if k.startswith(prop + ':')}))
+        cov['exhaustive'] = False
+        cov['samples'] = cov['samples'] + d['samples'][:3]
+        cov['known_findings'] = known
+        cov['known_region_note'] = ('programs inside a recorded finding region (syntactic / front-end-CFG predicate, known_findings.json) are run but their failures are not reported; '
+                                    'a failure of any program outside every region is a VIOLATION')
+        cov['bounded_pass_wall_s'] = d.get('wall')
+        cov['bounded_pass_cached'] = d['cached']
+        return 'exploration', cov, list(extra_assumptions) + e1['assumptions']
+    return run
+
+
+CHECKS['C07'] = src_property('C07 is compiler correctness of the whole source pipeline; no contract within reach decides it deductively. Bounded only: for every generated program the '
+                             'original and the regenerated function are run on every enumerated decision script and must agree on (return value or exception type, log of oracle '
+                             'accesses); NotImplementedError anywhere in the pipeline is a refusal, any other exception an internal error.',
+                             ['CPython running the original is the oracle'])
+CHECKS['C08'] = src_property('C08 is the correctness of the source-to-CFG translation; bounded only: a CFG interpreter (spec: run the block\'s statements, with two successors evaluate '
+                             'the last expression and take the first if true) is compared with CPython on every enumerated decision script, with operands that log and raise; '
+                             'statement objects must be unique across blocks.', ['CPython running the original is the oracle; the entry is block 0 or, when it was pruned, the next block created'])
+CHECKS['C10'] = src_property('C10 static census of the regenerated tree (covers code on paths no input exercises): every statement object of every AST block appears exactly once, '
+                             'every two-way block\'s test exactly once as an If.test, the (variable, constant) assignments equal the multiset over all synthetic assignment blocks, '
+                             'the output unparses and compiles, and only names of the reserved __scfg_*__ namespace are introduced. Bounded only.', [])
+
+
+def replay_program(r):
+    res = witness_fails(r['property'], r['source'])
+    print('replay program (%s): %s' % (r['property'], res))
+    return 1 if res else 0
+
+
+REPLAYERS['program'] = replay_program
